@@ -27,16 +27,12 @@ func plan(tier string, seed uint64, bin string) []run {
 	for _, kind := range []string{"bug", "identity"} {
 		for r := 0; r <= 3; r++ {
 			for k := 0; k <= 2; k++ {
-				depth := 4
-				if quick {
-					if r >= 2 {
-						depth = 3
-					}
-					if k == 1 {
-						continue // thorough tier; k=0 and k=2 bracket it
-					}
-				} else if r <= 2 {
-					depth = 5
+				depth := 5
+				if r >= 2 {
+					depth = 4
+				}
+				if !quick {
+					depth++
 				}
 				runs = append(runs, run{fmt.Sprintf("remove %s, %d remotes, %d others", kind, r, k),
 					Params{Seed: seed, Kind: kind, Remotes: r, Others: k, Bin: bin}, depth})
@@ -44,17 +40,17 @@ func plan(tier string, seed uint64, bin string) []run {
 		}
 	}
 	for r := 0; r <= 3; r++ {
-		depth := 3
-		if !quick {
-			depth = 4
+		depth := 4
+		if r == 3 {
+			depth = 3
 		}
-		if r == 3 && quick {
-			depth = 2
+		if !quick {
+			depth++
 		}
 		runs = append(runs, run{fmt.Sprintf("wipe, identity selected, %d remotes", r),
 			Params{Seed: seed, Kind: "bug", Remotes: r, Others: 1, Wipe: true, Bin: bin}, depth})
 		runs = append(runs, run{fmt.Sprintf("wipe, identity never selected, %d remotes", r),
-			Params{Seed: seed, Kind: "bug", Remotes: r, NoUser: true, Wipe: true, Bin: bin}, 3})
+			Params{Seed: seed, Kind: "bug", Remotes: r, NoUser: true, Wipe: true, Bin: bin}, 4})
 	}
 	return runs
 }
